@@ -1048,6 +1048,105 @@ Proof.
   destruct (sub_balance snd' (fee_of t)); discriminate.
 Qed.
 
+(* ------------------------------------------------------------------ no transaction ends in the reward-height panic *)
+Ltac step_all H := repeat (let E := fresh "E" in step_in H E).
+
+Lemma check_limit_panic sl da dt diff p : check_limit sl da dt diff = Panic p → p = P_LIMITER_DIV.
+Proof.
+  unfold check_limit. intros H. cbv zeta in H.
+  destruct (lim_objs sl) as [objs|]; [|discriminate].
+  step_all H; try discriminate; injection H as <-; reflexivity.
+Qed.
+
+Lemma stake_validate_panic s t p : stake_validate s t = Panic p → p ≠ P_REWARD_HEIGHT.
+Proof.
+  unfold stake_validate. intros H. cbv zeta in H.
+  destruct (t_type t =? TRX_STAKING).
+  - destruct (t_amount t / amountPerPower <=? 0); [discriminate|].
+    destruct (negb (t_amount t mod amountPerPower =? 0)); [discriminate|].
+    destruct (amount_to_power (t_amount t)) as [txp|]; [|injection H as <-; discriminate].
+    step_in H Eself.
+    + (* self/delegation check passed *)
+      destruct (wrap64 (a + txp) <=? 0); [injection H as <-; discriminate|].
+      destruct (3 <=? Z.of_nat (length (lastvals s))); [|discriminate].
+      apply check_limit_panic in H. subst p. discriminate.
+    + discriminate.
+    + injection H as <-. step_all Eself; try discriminate; injection Eself as <-; discriminate.
+  - destruct (t_type t =? TRX_UNSTAKING).
+    + destruct (dels (work s) !! t_to t) as [d|]; [|discriminate].
+      destruct (t_payload t) as [|h ok| | | | |]; try (injection H as <-; discriminate).
+      destruct (negb ok); [discriminate|].
+      destruct (find_stake h (d_stakes d)) as [s0|]; [|discriminate].
+      destruct (negb (s_from s0 =? t_from t)%N); [discriminate|].
+      destruct (3 <=? Z.of_nat (length (lastvals s))); [|discriminate].
+      apply check_limit_panic in H. subst p. discriminate.
+    + destruct (negb (t_amount t =? 0)); [discriminate|].
+      destruct (t_payload t); try discriminate.
+      destruct (rewards (work s) !! t_from t) as [r|]; [|discriminate].
+      destruct (r_cumulated r <? _); discriminate.
+Qed.
+
+Lemma acct_execute_panic l t p : acct_execute l t = Panic p → p = P_ENDBLOCK.
+Proof.
+  unfold acct_execute. intros H. step_all H; try discriminate; injection H as <-; reflexivity.
+Qed.
+
+Lemma gov_execute_no_panic s l t p : gov_execute s l t ≠ Panic p.
+Proof. unfold gov_execute. intros H. step_all H; discriminate. Qed.
+
+Lemma evm_execute_no_panic l t p : evm_execute l t ≠ Panic p.
+Proof. unfold evm_execute. intros H. step_all H; discriminate. Qed.
+
+Lemma stake_execute_no_panic s l t p :
+  (t_type t =? TRX_STAKING) || (t_type t =? TRX_UNSTAKING) = true → stake_execute s l t ≠ Panic p.
+Proof.
+  unfold stake_execute. intros Hty H. cbv zeta in H.
+  destruct (t_type t =? TRX_STAKING).
+  - step_all H; discriminate.
+  - simpl in Hty. rewrite Hty in H.
+    destruct (dels l !! t_to t) as [d|]; [|discriminate].
+    destruct (t_payload t) as [|hs ok| | | | |]; try discriminate.
+    destruct (find_stake hs (d_stakes d)) as [s0|]; [|discriminate].
+    destruct (negb (s_from s0 =? t_from t)%N); [discriminate|].
+    destruct (if d_self (del_stake d hs) =? 0 then _ else _) as [d2 fr2].
+    destruct (d_total d2 =? 0); discriminate.
+Qed.
+
+(* on states where reward records are not ahead of the block no DeliverTx ends in Panic P_REWARD_HEIGHT *)
+Theorem deliver_no_reward_panic s t :
+  rewards_height_ok s → (deliver s t).2 ≠ Panic P_REWARD_HEIGHT.
+Proof.
+  intros Hok. destruct (Z.eq_dec (t_type t) TRX_WITHDRAW) as [Hty|Hty]; [apply withdraw_no_reward_panic; assumption|].
+  destruct (deliver s t) as [s' r] eqn:Hd. simpl. intros ->. unfold deliver in Hd.
+  destruct (accts (work s) !! t_from t) as [sender|] eqn:Es; [|discriminate].
+  cbv zeta in Hd. cbn [work with_bctx] in Hd.
+  destruct (find_or_new (work s) (t_to t)) as [l0 receiver] eqn:Ef.
+  step_in Hd Ecv0; [discriminate|].
+  step_in Hd Ecv1; [discriminate|].
+  step_in Hd Eval; [|discriminate|].
+  2:{ (* a panic of validation *)
+      injection Hd as _ ->.
+      destruct ((t_type t =? TRX_PROPOSAL) || (t_type t =? TRX_VOTING)); [destruct (gov_validate _ t); discriminate|].
+      destruct ((t_type t =? TRX_TRANSFER) || (t_type t =? TRX_SETDOC)); [destruct (acct_validate t); discriminate|].
+      destruct ((t_type t =? TRX_STAKING) || (t_type t =? TRX_UNSTAKING) || (t_type t =? TRX_WITHDRAW)).
+      - apply stake_validate_panic in Eval. contradiction.
+      - destruct (t_type t =? TRX_CONTRACT); [destruct (evm_validate receiver t)|]; discriminate. }
+  step_in Hd Eevm.
+  - step_in Hd Ex; [destruct a0; discriminate|discriminate|]. eapply evm_execute_no_panic, Ex.
+  - step_in Hd Ex; [|discriminate|].
+    + step_in Hd Esnd; [|discriminate]. step_in Hd Efee; discriminate.
+    + injection Hd as _ ->.
+      destruct ((t_type t =? TRX_PROPOSAL) || (t_type t =? TRX_VOTING)) eqn:Eg; [eapply gov_execute_no_panic, Ex|].
+      destruct ((t_type t =? TRX_TRANSFER) || (t_type t =? TRX_SETDOC)) eqn:Ea; [apply acct_execute_panic in Ex; discriminate|].
+      eapply stake_execute_no_panic; [|exact Ex].
+      apply orb_false_iff in Eevm as [E6 _]. rewrite E6 in Eval.
+      destruct (t_type t =? TRX_STAKING) eqn:E2; [reflexivity|].
+      destruct (t_type t =? TRX_UNSTAKING) eqn:E3; [reflexivity|].
+      destruct (t_type t =? TRX_WITHDRAW) eqn:E8; [apply Z.eqb_eq in E8; contradiction|].
+      simpl in Eval. discriminate.
+Qed.
+Print Assumptions deliver_no_reward_panic.
+
 (* ================================================================== R2: the ledger identity along runs *)
 (* the withdrawable reward of an account (no record = nothing) *)
 Definition cum_of (s : state) (a : addr) : Z := r_cumulated (default reward0 (rewards (work s) !! a)).
